@@ -51,7 +51,9 @@ def seeds_table(res):
         note = meta.get("note", "")
         if meta.get("obsolete"):
             det = "-"
-            note = note or "obsolete (code replaced by a fix)"
+            why = str(meta.get("obsolete"))
+            kind = "equivalent" if why.startswith("equivalent") else "obsolete"
+            note = note or f"{kind}: " + (why if len(why) < 260 else why[:257] + "...")
         elif r and "checks" in r:
             det = ", ".join(r["detected_by"]) or "**MISSED**"
             meta["detected_by"] = r["detected_by"]
